@@ -13,6 +13,7 @@
 //     status / registrationTime / …) with whether it is a write and the mode in which the function
 //     itself holds the guarding mutex AT THAT POSITION;
 //   - every call of a package function / method (by short name) with the mutexes held at the call.
+//
 // The Lean side decides that every access happens under (or is only reachable under) the lock.
 package main
 
@@ -40,9 +41,12 @@ var mutexes = map[string]bool{"m": true, "reloadMu": true, "policyMu": true, "ge
 
 var muOrder = []string{"m", "policyMu", "reloadMu", "genMutex", "lvMutex", "ttMutex"}
 
+type span struct{ from, to token.Pos }
+
+// a lock region: the positions at which the mutex is held by the function itself
 type region struct {
 	mu, mode string
-	from, to token.Pos
+	spans    []span
 }
 
 type access struct {
@@ -143,16 +147,54 @@ func escapes(stmts []ast.Stmt, mu string) bool {
 	return bad
 }
 
-// scan finds the lock regions of one function scope (body of a FuncDecl or FuncLit). Nested function
-// literals are scanned as scopes of their own (their defers run at their own end); `go` closures are
-// cut out into rows of their own by the caller and are not entered here.
+// scan finds the lock regions of one function scope (body of a FuncDecl or FuncLit) by descending
+// through its statement structure. Nested function literals are scopes of their own (their defers run
+// at their own end); `go` closures are cut out into rows of their own by the caller.
+//
+// A deferred release holds the mutex for the rest of the statement list it stands in and for
+// everything that follows the enclosing statements — not for sibling branches (else, other cases).
 func (a *analyzer) scan(r *row, body *ast.BlockStmt, goLits map[*ast.FuncLit]bool) {
-	scopeEnd := body.End()
-	var lists func(n ast.Node)
-	doList := func(list []ast.Stmt) {
+	var visitList func(list []ast.Stmt, listEnd token.Pos, outer []span, inLoop bool)
+	var visitStmt func(st ast.Stmt, outer []span, inLoop bool)
+	visitStmt = func(st ast.Stmt, outer []span, inLoop bool) {
+		switch y := st.(type) {
+		case *ast.BlockStmt:
+			visitList(y.List, y.End(), outer, inLoop)
+		case *ast.IfStmt:
+			visitList(y.Body.List, y.Body.End(), outer, inLoop)
+			if y.Else != nil {
+				visitStmt(y.Else, outer, inLoop)
+			}
+		case *ast.ForStmt:
+			visitList(y.Body.List, y.Body.End(), outer, true)
+		case *ast.RangeStmt:
+			visitList(y.Body.List, y.Body.End(), outer, true)
+		case *ast.SwitchStmt:
+			visitStmt(y.Body, outer, inLoop)
+		case *ast.TypeSwitchStmt:
+			visitStmt(y.Body, outer, inLoop)
+		case *ast.SelectStmt:
+			visitStmt(y.Body, outer, inLoop)
+		case *ast.CaseClause:
+			visitList(y.Body, y.End(), outer, inLoop)
+		case *ast.CommClause:
+			visitList(y.Body, y.End(), outer, inLoop)
+		case *ast.LabeledStmt:
+			visitStmt(y.Stmt, outer, inLoop)
+		}
+	}
+	visitList = func(list []ast.Stmt, listEnd token.Pos, outer []span, inLoop bool) {
 		for i, st := range list {
+			after := append([]span{{st.End(), listEnd}}, outer...)
+			if _, isCase := st.(*ast.CaseClause); isCase {
+				after = outer // the other cases of a switch do not follow this one
+			}
+			if _, isComm := st.(*ast.CommClause); isComm {
+				after = outer
+			}
 			mu, op, ok := stmtLockOp(st)
 			if !ok || (op != "Lock" && op != "RLock") {
+				visitStmt(st, after, inLoop)
 				continue
 			}
 			mode, unlock := "W", "Unlock"
@@ -166,12 +208,11 @@ func (a *analyzer) scan(r *row, body *ast.BlockStmt, goLits map[*ast.FuncLit]boo
 			// pattern A: directly followed by the deferred release
 			if i+1 < len(list) {
 				if m2, op2, ok2 := deferLockOp(list[i+1]); ok2 && m2 == mu && op2 == unlock {
-					r.regions = append(r.regions, region{mu, mode, st.End(), scopeEnd})
+					r.regions = append(r.regions, region{mu, mode, after})
 					a.consumed[callExpr] = true
 					a.consumed[list[i+1].(*ast.DeferStmt).Call] = true
-					// a second operation on this mutex later in the scope would be inside the region
-					if escapesLockOnly(list[i+2:], mu) {
-						r.structured = false
+					if inLoop {
+						r.structured = false // the next iteration would acquire it again before the release
 					}
 					continue
 				}
@@ -181,7 +222,7 @@ func (a *analyzer) scan(r *row, body *ast.BlockStmt, goLits map[*ast.FuncLit]boo
 			for j := i + 1; j < len(list); j++ {
 				if m2, op2, ok2 := stmtLockOp(list[j]); ok2 && m2 == mu {
 					if op2 == unlock && !escapes(list[i+1:j], mu) {
-						r.regions = append(r.regions, region{mu, mode, st.End(), list[j].Pos()})
+						r.regions = append(r.regions, region{mu, mode, []span{{st.End(), list[j].Pos()}}})
 						a.consumed[callExpr] = true
 						a.consumed[list[j].(*ast.ExprStmt).X] = true
 						matched = true
@@ -194,54 +235,30 @@ func (a *analyzer) scan(r *row, body *ast.BlockStmt, goLits map[*ast.FuncLit]boo
 			}
 		}
 	}
-	lists = func(n ast.Node) {
-		ast.Inspect(n, func(x ast.Node) bool {
-			switch y := x.(type) {
-			case *ast.FuncLit:
-				if goLits[y] {
-					return false
-				}
-				if y.Body != body {
-					a.scan(r, y.Body, goLits)
-					return false
-				}
-			case *ast.BlockStmt:
-				doList(y.List)
-			case *ast.CaseClause:
-				doList(y.Body)
-			case *ast.CommClause:
-				doList(y.Body)
-			}
-			return true
-		})
-	}
-	lists(body)
-}
-
-// escapesLockOnly: is there another operation on the mutex (outside function literals)?
-func escapesLockOnly(stmts []ast.Stmt, mu string) bool {
-	bad := false
-	for _, st := range stmts {
-		ast.Inspect(st, func(n ast.Node) bool {
-			switch x := n.(type) {
-			case *ast.FuncLit:
+	visitList(body.List, body.End(), nil, false)
+	// function literals (other than `go` closures) are scopes of their own
+	ast.Inspect(body, func(x ast.Node) bool {
+		if fl, ok := x.(*ast.FuncLit); ok {
+			if goLits[fl] {
 				return false
-			case *ast.CallExpr:
-				if m, _, ok := lockOp(x); ok && m == mu {
-					bad = true
-				}
 			}
-			return true
-		})
-	}
-	return bad
+			visitList(fl.Body.List, fl.Body.End(), nil, false)
+		}
+		return true
+	})
 }
 
 func (r *row) held(mu string, pos token.Pos) string {
 	best := ""
 	for _, g := range r.regions {
-		if g.mu == mu && g.from <= pos && pos < g.to && rank(g.mode) > rank(best) {
-			best = g.mode
+		if g.mu != mu || rank(g.mode) <= rank(best) {
+			continue
+		}
+		for _, sp := range g.spans {
+			if sp.from <= pos && pos < sp.to {
+				best = g.mode
+				break
+			}
 		}
 	}
 	return best
